@@ -72,6 +72,12 @@ CHECKS = {
    text="For every program of the three spaces whose reference rendering go/types accepts (quick: ~190k valid programs out of 2.5M enumerated), the builder must report no error, the emitted package must type-check, and the typed canonical form of the function (identifiers replaced by the identity of the object they resolve to; parentheses, import names, positions dropped; `else {if}`==`else if`, `L: ; S`==`L: S`) must equal the reference's. Deviations pinned in known/C02.<tier>.tsv.",
    note="Trusted: go/types 1.23.5; the IR renderer and the driver (a wrong transcription shows up as a disagreement and is fixed in the driver, never listed as a finding); canonical-form normalisations listed above.",
    design="§4 C02"),
+ "C17": dict(
+   category="exploration",
+   technique="bounded exhaustive enumeration of arity-correct operation applications x operand kinds, of the whole expression space under every optional-configuration variant, and of an extremes table, on the real builder under a time/memory watchdog; oracle = class of the recovered panic value",
+   text="~110 operations x all combinations of 16 operand kinds (1-3 operands), the 1.8M-program expression space, the single-operator space under 6 configuration variants (no recorder, no interpreter, nil HandleErr, NoSkipConstant, ...), and 70 extreme inputs (shift counts up to 2^64, 10^4-digit literals, 1e100000, 10^4-deep nesting, 10^4 arguments/cases/fields/statements). No recovered panic may be a runtime.Error; every execution finishes within 20 s / 3 GiB. Known faults pinned per (stage:site|fault@function) in known/C17.<tier>.tsv.",
+   note="Trusted: the classification runtime.Error vs reported error; the watchdog limits (two orders of magnitude above legitimate executions). 'Time and memory proportional to input size' is decided only in this bounded form.",
+   design="§4 C17"),
 }
 
 NOT_APPLICABLE = {
